@@ -89,6 +89,7 @@ func (o *c19Out) Fail(sig, format string, args ...any) {
 	o.mu.Unlock()
 	o.emit("F", [2]string{sig, fmt.Sprintf(format, args...)})
 }
+
 // c19HarnessTrouble reports trouble of the environment (not of the code under test) from the
 // child; the parent ends the job as inconclusive.
 func c19HarnessTrouble(o *c19Out, format string, args ...any) {
